@@ -155,6 +155,18 @@ pub fn c11(args: &Args) {
                             "out":vec_or_panic(|| verif::ntt_ifft(&verif::ntt_hadamard_mul(&verif::ntt_fft(&a), &verif::ntt_fft(&b)))),"tag":"mul"}));
         }
     }
+    // the same kinds of calls once more with the lengths in DESCENDING and then in an interleaved order (a table or scratch
+    // buffer cached from a previous, different length would show here but not in the ascending pass above)
+    let mut order: Vec<usize> = (0..=10).rev().collect();
+    order.extend([3usize, 10, 1, 9, 0, 8, 2, 10, 5]);
+    for w in order {
+        let n = 1usize << w;
+        let a: Vec<i16> = (0..n).map(|_| rng.gen_range(0..Q as i16)).collect();
+        let b: Vec<i16> = (0..n).map(|_| rng.gen_range(0..Q as i16)).collect();
+        out.emit(json!({"ev":"mul","n":n,"a":i16s_json(&a),"b":i16s_json(&b),
+                        "out":vec_or_panic(|| verif::ntt_ifft(&verif::ntt_hadamard_mul(&verif::ntt_fft(&a), &verif::ntt_fft(&b)))),"tag":"mul-order"}));
+        out.emit(json!({"ev":"roundtrip","n":n,"a":i16s_json(&a),"out":vec_or_panic(|| verif::ntt_ifft(&verif::ntt_fft(&a))),"tag":"roundtrip-order"}));
+    }
     println!("events {}", out.finish());
 }
 
